@@ -132,3 +132,175 @@ package api
 //@   nopanic off
 //@   modifies *
 //@   at call database.NewInterface assert arg0 == nil
+
+// ---- C13: every database-API message gets the replies its protocol prescribes (per handler, A-seq)
+
+//@ spec isTerminal(t string) bool = t == dbMsgTypeDone || t == dbMsgTypeError
+
+// send: opID, type, optional key/message and optional data are appended in this order, separated by "|"
+//@ func (*DatabaseAPI).send
+//@   requires api != nil
+//@   nopanic off
+//@   modifies *
+//@   ghost var appends int = 0
+//@   at call container.New assert len(arg0) == 1 && arg0[0] == opID
+//@   at call (*Container).Append ghost appends = appends + 1
+//@   at call dynamic assert appends == 2 + (msgOrKey != emptyString ? 2 : 0) + (len(data) > 0 ? 2 : 0)
+
+// Handle: a message is either dispatched to exactly one handler goroutine with the message's
+// operation ID, or answered with exactly one error (malformed: without ID; unknown method: with its ID)
+//@ func (*DatabaseAPI).Handle
+//@   requires api != nil
+//@   nopanic off
+//@   modifies *
+//@   ghost var spawned int = 0
+//@   ghost var sends int = 0
+//@   at go ghost spawned = spawned + 1
+//@   at go assert arg0 == api && arg1 == parts[0] && len(parts) >= 2
+//@   at call (*DatabaseAPI).send ghost sends = sends + 1
+//@   at call (*DatabaseAPI).send assert arg2 == dbMsgTypeError
+//@   ensures spawned + sends == 1
+
+// get / create / update / insert / delete: exactly one reply, carrying the request's ID
+//@ func (*DatabaseAPI).handleGet
+//@   requires api != nil
+//@   nopanic off
+//@   modifies *
+//@   ghost var sends int = 0
+//@   ghost var last string = ""
+//@   at call (*DatabaseAPI).send assert arg0 == api && arg1 == opID
+//@   at call (*DatabaseAPI).send ghost sends = sends + 1
+//@   at call (*DatabaseAPI).send ghost last = arg2
+//@   ensures sends == 1 && (last == dbMsgTypeOk || last == dbMsgTypeError)
+
+//@ func (*DatabaseAPI).handlePut
+//@   requires api != nil
+//@   nopanic off
+//@   modifies *
+//@   ghost var sends int = 0
+//@   ghost var last string = ""
+//@   ghost var wrote int = 0
+//@   ghost var werr error = nil
+//@   at call (*DatabaseAPI).send assert arg0 == api && arg1 == opID
+//@   at call (*DatabaseAPI).send ghost sends = sends + 1
+//@   at call (*DatabaseAPI).send ghost last = arg2
+//@   at after (*Interface).PutNew ghost wrote = wrote + 1
+//@   at after (*Interface).PutNew ghost werr = ret0
+//@   at after (*Interface).Put ghost wrote = wrote + 1
+//@   at after (*Interface).Put ghost werr = ret0
+//@   at call (*Interface).PutNew assert create
+//@   at call (*Interface).Put assert !create
+//@   ensures sends == 1 && (last == dbMsgTypeSuccess || last == dbMsgTypeError)
+//@   ensures last == dbMsgTypeSuccess ==> wrote == 1 && werr == nil
+
+//@ func (*DatabaseAPI).handleInsert
+//@   requires api != nil
+//@   nopanic off
+//@   modifies *
+//@   ghost var sends int = 0
+//@   ghost var last string = ""
+//@   ghost var wrote int = 0
+//@   ghost var werr error = nil
+//@   at call (*DatabaseAPI).send assert arg0 == api && arg1 == opID
+//@   at call (*DatabaseAPI).send ghost sends = sends + 1
+//@   at call (*DatabaseAPI).send ghost last = arg2
+//@   at after (*Interface).Put ghost wrote = wrote + 1
+//@   at after (*Interface).Put ghost werr = ret0
+//@   ensures sends == 1 && (last == dbMsgTypeSuccess || last == dbMsgTypeError)
+//@   ensures last == dbMsgTypeSuccess ==> wrote == 1 && werr == nil
+
+//@ func (*DatabaseAPI).handleDelete
+//@   requires api != nil
+//@   nopanic off
+//@   modifies *
+//@   ghost var sends int = 0
+//@   ghost var last string = ""
+//@   ghost var derr error = nil
+//@   at call (*DatabaseAPI).send assert arg0 == api && arg1 == opID
+//@   at call (*DatabaseAPI).send ghost sends = sends + 1
+//@   at call (*DatabaseAPI).send ghost last = arg2
+//@   at call (*Interface).Delete assert arg1 == key
+//@   at after (*Interface).Delete ghost derr = ret0
+//@   ensures sends == 1 && (last == dbMsgTypeSuccess || last == dbMsgTypeError)
+//@   ensures last == dbMsgTypeSuccess <==> derr == nil
+
+// query: any number of ok / warning replies, then - unless the API shuts down - exactly one done or error
+//@ func (*DatabaseAPI).processQuery
+//@   requires api != nil
+//@   nopanic off
+//@   modifies *
+//@   ghost var terminals int = 0
+//@   ghost var last string = ""
+//@   ghost var shut bool = false
+//@   at call (*DatabaseAPI).send assert arg0 == api && arg1 == opID && terminals == 0
+//@   at call (*DatabaseAPI).send assert arg2 == dbMsgTypeOk || arg2 == dbMsgTypeWarning || arg2 == dbMsgTypeDone || arg2 == dbMsgTypeError
+//@   at call (*DatabaseAPI).send ghost terminals = terminals + (isTerminal(arg2) ? 1 : 0)
+//@   at call (*DatabaseAPI).send ghost last = arg2
+//@   at call (*Iterator).Cancel ghost shut = true
+//@   at return assert terminals == 1 || (shut && terminals == 0)
+//@   ensures ok ==> terminals == 1 && last == dbMsgTypeDone
+//@   loop 0 invariant terminals == 0 && !shut
+
+//@ func (*DatabaseAPI).handleQuery
+//@   requires api != nil
+//@   nopanic off
+//@   modifies *
+//@   ghost var sends int = 0
+//@   ghost var procs int = 0
+//@   at optional call (*DatabaseAPI).send assert arg1 == opID && arg2 == dbMsgTypeError
+//@   at optional call (*DatabaseAPI).send ghost sends = sends + 1
+//@   at call (*DatabaseAPI).processQuery assert arg1 == opID
+//@   at call (*DatabaseAPI).processQuery ghost procs = procs + 1
+//@   ensures sends + procs == 1
+
+//@ func (*DatabaseAPI).registerSub
+//@   requires api != nil
+//@   nopanic off
+//@   modifies *
+//@   ghost var sends int = 0
+//@   at call (*DatabaseAPI).send assert arg1 == opID && arg2 == dbMsgTypeError
+//@   at call (*DatabaseAPI).send ghost sends = sends + 1
+//@   ensures ok ==> sends == 0 && sub != nil
+//@   ensures !ok ==> sends == 1 && sub == nil
+
+// sub: upd / new / del / warning replies until the feed ends, then exactly one done (none on API shutdown)
+//@ func (*DatabaseAPI).processSub
+//@   requires api != nil && sub != nil
+//@   nopanic off
+//@   modifies *
+//@   ghost var terminals int = 0
+//@   ghost var shut bool = false
+//@   at call (*DatabaseAPI).send assert arg0 == api && arg1 == opID && terminals == 0
+//@   at call (*DatabaseAPI).send assert arg2 == dbMsgTypeUpd || arg2 == dbMsgTypeNew || arg2 == dbMsgTypeDel || arg2 == dbMsgTypeWarning || arg2 == dbMsgTypeDone
+//@   at call (*DatabaseAPI).send ghost terminals = terminals + (isTerminal(arg2) ? 1 : 0)
+//@   at call (*Subscription).Cancel ghost shut = true
+//@   at return assert terminals == 1 || (shut && terminals == 0)
+//@   loop 0 invariant terminals == 0 && !shut
+
+//@ func (*DatabaseAPI).handleSub
+//@   requires api != nil
+//@   nopanic off
+//@   modifies *
+//@   ghost var regOK bool = false
+//@   ghost var regSub *database.Subscription = nil
+//@   at after (*DatabaseAPI).registerSub ghost regOK = ret1
+//@   at after (*DatabaseAPI).registerSub ghost regSub = ret0
+//@   at optional call (*DatabaseAPI).send assert arg1 == opID && arg2 == dbMsgTypeError
+//@   at call (*DatabaseAPI).registerSub assert arg1 == opID
+//@   at call (*DatabaseAPI).processSub assert regOK && arg1 == opID && arg2 == regSub
+
+// qsub: the subscription is registered first, then the query replies, then - only if the query ended with done - the subscription replies
+//@ func (*DatabaseAPI).handleQsub
+//@   requires api != nil
+//@   nopanic off
+//@   modifies *
+//@   ghost var regOK bool = false
+//@   ghost var regSub *database.Subscription = nil
+//@   ghost var qOK bool = false
+//@   ghost var qDone bool = false
+//@   at after (*DatabaseAPI).registerSub ghost regOK = ret1
+//@   at after (*DatabaseAPI).registerSub ghost regSub = ret0
+//@   at call (*DatabaseAPI).processQuery assert regOK && arg1 == opID
+//@   at after (*DatabaseAPI).processQuery ghost qOK = ret0
+//@   at after (*DatabaseAPI).processQuery ghost qDone = true
+//@   at call (*DatabaseAPI).processSub assert qDone && qOK && arg1 == opID && arg2 == regSub
